@@ -27,7 +27,7 @@ V = "Verus contracts on the real code (extracted mechanically each run), all inp
 
 PROPS = {
  "C01": {"level": "proof", "technique": "Verus function contracts over an abstract two-table state (multiset content, per-table maps) on the real raw layer",
-         "claim": "Unbounded proof, per call and hence by induction over histories, that every raw-layer operation (find/insert/remove/erase/clear/drain/len/reserve/shrink/grow/carry) has the sequential-map effect on the multiset of stored elements whichever table an element lives in, and that no assert!/unreachable!/expect in that layer can fire. " + V,
+         "claim": "Unbounded proof, per call and hence by induction over histories, that every raw-layer operation (find/get/insert/remove/erase/clear/drain/len/reserve/shrink/grow/carry) has the sequential-map effect on the multiset of stored elements whichever table an element lives in (a lookup that misses consulted the main table AND the old table), that every insertion path stores the element under the hash the map's own builder computes for its key (invariant hashed), that the map/set/entry/raw-entry wrappers preserve all of it, and that no assert!/unreachable!/expect in that code can fire. " + V,
          "note": "trusted: the hashbrown contract model; old-table lookup completeness (FnMut reborrow) and values behind bucket pointers are not decided here",
          "not_decided": ["old-table lookup completeness: `find` passes `&mut eq` to the first lookup, Verus must assume the FnMut changed", "values written through dereferenced buckets", "raw-entry builder chains, extend/from_iter (iterator adapters)"]},
  "C02": {"level": "proof", "technique": "Verus postconditions: carry moves exactly min(R, remaining), R == 8, growth relocates nothing, insert recursion decreases",
@@ -53,29 +53,29 @@ PROPS = {
          "note": "unwinding itself is not modelled (invariant-at-callout argument); predicates of retain/drain_filter and Clone panics are not decided",
          "not_decided": ["retain/drain_filter predicate panics", "Clone panics inside hashbrown", "double drops during unwinding"]},
  "C08": {"level": "proof", "technique": "Verus contracts on iter/drain/into_iter_from and on next/size_hint of RawIntoIter/RawDrain/RawIter",
-         "claim": "Unbounded proof that iter() covers exactly main + old table (old part = clone of the cached iterator), that drain detaches the old table at once, that RawIntoIter/RawDrain yield each remaining element once and are fused, and that every size_hint is the exact sum. " + V,
+         "claim": "Unbounded proof that iter() covers exactly main + old table (old part = clone of the cached iterator), that drain detaches the old table at once, that into_iter/RawIntoIter/RawDrain yield each remaining element once and are fused, that every size_hint is the exact sum, and that the map- and set-level wrappers (Iter, IterMut, Keys, Values, ValuesMut, IntoIter, Drain and the set versions) are created covering the whole map and count down by exactly one per yielded element. " + V,
          "note": "RawIter::next is outside Verus' subset (closure capturing &mut): its contract is assumed",
          "not_decided": ["RawIter::next body", "map/set iterator wrappers (pointer dereference)"]},
  "C09": {"level": "proof", "technique": "Verus contracts on erase/remove as used by retain/drain_filter (structure); values behind pointers undecided",
-         "claim": "Unbounded proof of the structural half: erase/remove on a yielded bucket keep every invariant, remove exactly that element, and keep the cached iterator in sync. " + V,
+         "claim": "Unbounded proof of the structural half on the real bodies of retain and DrainFilterInner::next: every invariant kept, only yielded and still-valid buckets erased/removed, result a sub-multiset (retain) / exactly the yielded element removed (drain_filter), the cursor only moves forward (each element visited once), stays valid even after the old table is freed, and the loops terminate. " + V,
          "note": "which elements are kept depends on values read through bucket pointers: not decided by Verus",
          "not_decided": ["partition by the predicate (values behind as_mut())"]},
  "C10": {"level": "proof", "technique": "Verus contracts of with_capacity/reserve/try_reserve/shrink_to incl. overflow-freedom of every usize operation",
          "claim": "Unbounded proof, for all n and m in usize, that reserve/try_reserve(Ok) leave growth_left >= leftovers + n, that Err leaves the table unchanged, that shrink_to never enlarges or loses elements and keeps capacity >= len, and that no size computation can overflow in either profile. " + V,
          "note": "allocation failure/capacity overflow behaviour of hashbrown is modelled (with_capacity returns only for c <= isize::MAX)"},
  "C11": {"level": "proof", "technique": "Verus contracts on clone_with_hasher / clone_from_with_hasher (structure: unsplit result, size)",
-         "claim": "Unbounded proof of the raw structure: clone_from drops its own leftovers first, the result is unsplit, well-formed and has the source's element count. " + V,
+         "claim": "Unbounded proof on the real bodies of Clone for HashMap (clone, clone_from) and of the raw functions beneath them (incl. and_carry_with_hasher): the destination's own old table is dropped first, the result is unsplit, well-formed, has the source's element count, and is hashed under the hash builder the map ends up with (a clone of the source's). " + V,
          "note": "and_carry_with_hasher is assumed (for-loop over a raw iterator); contents equality and independence are not decided by Verus",
          "not_decided": ["element-wise equality of the clone", "independence of the two maps", "hasher adoption (trait impl)"]},
  "C12": {"level": "proof", "technique": "Verus: insert returns a valid main-table bucket holding the value in the final state; carry leaves main buckets in place; dispatch on in_main",
-         "claim": "Unbounded proof that the bucket returned by insert/insert_no_grow designates the new element after growth and after carry (carry.main_stable), that find tags buckets with the right table, and that remove/erase/replace_bucket_with act on the bucket's own table. " + V,
+         "claim": "Unbounded proof that the bucket returned by insert/insert_no_grow designates the new element after growth and after carry (carry.main_stable), that find tags buckets with the right table, that remove/erase/replace_bucket_with act on the bucket's own table, and that every method of Entry/OccupiedEntry/VacantEntry/RawEntryMut/RawOccupiedEntryMut/RawVacantEntryMut requires a handle that designates a live element and returns one that still does (no operation between creation and use of a handle may move elements). " + V,
          "note": "accessors that dereference buckets are opaque to Verus",
          "not_decided": ["values read/written through handles"]},
  "C17": {"level": "proof", "technique": "the same contracts verified under -C debug-assertions=on and =off; overflow and debug-only assertions are obligations",
          "claim": "Unbounded proof that no debug_assert!/cfg!(debug_assertions) arm can fire, that both arms meet one contract, and that no usize computation can overflow, so the two profiles cannot diverge in the raw layer. " + V,
          "note": "hashbrown's own debug assertions are modelled as preconditions; the reflect_remove ordering assertion is not visible to Verus"},
  "C13": {"level": "proof", "technique": "Verus contracts on the HashSet element operations (one-line delegations) over the map/raw-layer contracts they rest on",
-         "claim": "Unbounded proof that HashSet::{insert, replace, remove, take, clear, len, is_empty, reserve, try_reserve, shrink_to*, get_or_insert} have the set effect on the underlying table (cardinality changes by exactly the reported result, contents conserved, invariants kept), resting on the C01 clauses of the raw and map functions they delegate to (those clauses also carry the label C13). " + V,
+         "claim": "Unbounded proof that HashSet::{insert, replace, remove, take, clear, len, is_empty, reserve, try_reserve, shrink_to*, get_or_insert, iter, drain, into_iter} have the set effect on the underlying table (cardinality changes by exactly the reported result, contents conserved, invariants kept), resting on the C01 clauses of the raw and map functions they delegate to (those clauses also carry the label C13), and that intersection/difference iterate and probe the right operands and terminate. " + V,
          "note": "set algebra (union/intersection/difference/symmetric_difference, is_subset/is_disjoint, ==, operators) is built from iterator adapters, outside Verus' subset: not decided here",
          "not_decided": ["union / intersection / difference / symmetric_difference / is_subset / is_superset / is_disjoint / == and the operator forms (iterator adapters)", "membership results (values behind bucket pointers)"]},
  "C14": {"level": "proof", "technique": "Verus: every read-only observer of the raw layer (len, find/get, iter, size_hint) is specified as a function of the abstract contents only",
